@@ -38,6 +38,7 @@ package server
 // flushes its output and exits the process from inside the bubble.
 
 import (
+	"reflect"
 	"bufio"
 	"bytes"
 	"crypto"
@@ -374,6 +375,10 @@ func c08RunCase(k *c08Keys, line string, w *bufio.Writer) {
 	// the real State, as InitState leaves it for this property: empty cache, cleaner running
 	sta := &State{StaticPv: k.pv, UsedRandom: map[[32]byte]int64{}}
 	sta.WorldState = common.WorldState{Rand: rnd, Now: c08SeamNow} // follows the bubble's virtual time; the seam for D: tokens
+	// a numeric field of State this harness has never heard of (an option added later) is given a large value: how long
+	// a handshake stays acceptable, and how long it is remembered, must not drift apart because of it.  On the code as
+	// it is there is no such field and this does nothing.
+	c08SetUnknownNumbers(sta)
 	go sta.UsedRandomCleaner()
 	var pkts [][]byte
 	var facts, obs, dets []string
@@ -550,4 +555,24 @@ func TestVerifC08(t *testing.T) {
 		// intercepted by package testing; the raw exit is not.)
 		syscall.Exit(0)
 	})
+}
+
+
+var c08KnownStateFields = map[string]bool{"ProxyBook": true, "ProxyDialer": true, "WorldState": true, "AdminUID": true, "BypassUID": true,
+	"StaticPv": true, "RedirHost": true, "RedirPort": true, "RedirDialer": true, "usedRandomM": true, "UsedRandom": true, "Panel": true}
+
+func c08SetUnknownNumbers(sta *State) {
+	rv := reflect.ValueOf(sta).Elem()
+	for i := 0; i < rv.NumField(); i++ {
+		f := rv.Field(i)
+		if c08KnownStateFields[rv.Type().Field(i).Name] || !f.CanSet() {
+			continue
+		}
+		switch f.Kind() {
+		case reflect.Int, reflect.Int8, reflect.Int16, reflect.Int32, reflect.Int64:
+			f.SetInt(100000 * 1000000000) // 100000 s if it is a time.Duration
+		case reflect.Uint, reflect.Uint8, reflect.Uint16, reflect.Uint32, reflect.Uint64:
+			f.SetUint(100000)
+		}
+	}
 }
